@@ -14,7 +14,7 @@ META = {
                                                       '_run_equal_interval', 'natural_breaks', '_run_natural_break', '_run_jenks', '_run_numpy_jenks_matrices')],
     'bounds': {'quick': 'reclassify: every bin count 1..6, bins symbolic strictly ascending, value symbolic (NaN/+-inf allowed), new values symbolic; binary: <=3 listed values, '
                         'cells NaN/inf/finite, float and int dtypes; equal_interval / quantile: rasters of 3 and 4 cells (NaN allowed), k in {2,3}; natural_breaks: 3 and 4 cells, k=2; NOT symbolic: equal_interval on 144 small integer ranges x k in {2,3,5,7} executed with real float arithmetic (enumeration of the np.arange overshoot / last-cut rounding cases that exact reals cannot reach)',
-               'thorough': 'reclassify up to 8 bins; equal_interval / quantile 5 cells k in {2,3,4}; natural_breaks 5 cells k in {2,3} (class range / order claims; the optimality claim is decided up to 4 cells, k = 2 - five cells come back unknown from z3 after 30 s per query)'},
+               'thorough': 'reclassify up to 8 bins; equal_interval / quantile 5 cells k in {2,3,4}; natural_breaks 5 cells k = 2 (class range / order claims; the optimality claim is decided up to 4 cells with k = 2, ties allowed on 3 cells and for one tied pair on 4 - beyond that z3 answers unknown after 30 s per query)'},
     'stubs': ['numba.jit = identity', 'np.percentile = sorting network + linear interpolation', 'np.unique / sort = forking insertion sort', 'print / warnings = no-op'],
     'outside': ['single-precision rounding of break values (the guards bins[-1] = max exist for floats; in exact arithmetic they are not needed, so a mutant deleting them is invisible here)',
                 'np.arange overshoot branch for symbolic inputs (dead under exact arithmetic; executed only by the concrete landmark sweep, which is enumeration and not a solver verdict)', 'natural_breaks sampling branch (num_sample < size)', 'rasters with fewer than two distinct finite values for equal_interval'],
@@ -56,7 +56,9 @@ def jobs(tier, seed):
     # ties carry weight: two cells share a value (the multiplicity must enter the within-class variance)
     out.append({'name': 'natural_breaks-2x2-k2-tied-pair', 'kind': 'natural_breaks', 'shape': [2, 2], 'k': 2, 'optimality': True, 'tie': [0, 1]})
     for shp in ([(1, 3), (2, 2)] if tier == 'quick' else [(1, 3), (2, 2), (1, 5)]):
-        for k in ((2,) if tier == 'quick' else (2, 3)):
+        for k in ((2, 3) if (tier != 'quick' or shp == (1, 3)) else (2,)):
+            if shp == (1, 5) and k == 3:
+                continue        # the Jenks recurrence over five symbolic values with three classes: z3 answers unknown on path feasibility (measured)
             out.append({'name': 'natural_breaks-%dx%d-k%d' % (shp[0], shp[1], k), 'kind': 'natural_breaks', 'shape': list(shp), 'k': k,
                         'optimality': (tier != 'quick' and shp[0] * shp[1] <= 4 and k == 2) or shp == (1, 3)})
     return out
@@ -143,6 +145,12 @@ def body_ei_landmarks(ctx, job):
             res = ctx.call('classify:equal_interval', raster(d, attrs={'res': 1}, name='a'), k)
             out = [v if not sc.is_sym(v) else sc.as_const(v) for v in vals(res).ravel().flat_values()]
             info = {'values': cellsv, 'k': k, 'classes': [None if (o is None or o != o) else o for o in out]}
+            if (lo + span) % 3 == 0:
+                # the dask branch builds its bin list separately: same sweep, a third of the ranges
+                res_da = ctx.call('classify:equal_interval', raster(d.copy(), attrs={'res': 1}, name='a', chunks=((1,), (2, 4))), k)
+                out_da = [v if not sc.is_sym(v) else sc.as_const(v) for v in vals(res_da).ravel().flat_values()]
+                ctx.check('dask-classes-equal-numpy-classes', all((a != a and b != b) or a == b for a, b in zip(out, out_da)),
+                          info=dict(info, dask_classes=[None if (o is None or o != o) else o for o in out_da]))
             ctx.check('max-gets-top-class', out[2] == k - 1, info=info)
             ctx.check('min-gets-class-0', out[0] == 0, info=info)
             ctx.check('non-finite-cells-are-nan', out[4] != out[4], info=info)
@@ -176,8 +184,16 @@ def body_q_landmarks(ctx, job):
 
 
 def body_nb_landmarks(ctx, job):
-    for cellsv in ([0.1, 0.2, 0.3, 0.7], [0.1, 0.35, 0.36, 0.9, 1.7, 1.75], [3.3, 1.1, 2.2, 9.9, 9.7, float('nan')], [1e-3, 2e-3, 7e-3, 8e-3]):
-        for k in (2, 3):
+    clusters = [0.0, 50.0, 100.0, 101.0, 102.0, 200.0, 201.0, 300.0, 301.0, 302.0]
+    for cellsv, ks in (([0.1, 0.2, 0.3, 0.7], (2, 3, 4)), ([0.1, 0.35, 0.36, 0.9, 1.7, 1.75], (2, 3)), ([3.3, 1.1, 2.2, 9.9, 9.7, float('nan')], (2, 3, 5)),
+                       ([1e-3, 2e-3, 7e-3, 8e-3], (2, 3)), (clusters, (5,))):
+        for k in ks:
+            if cellsv is clusters:
+                # two isolated small values + three clusters: the optimal 5-partition isolates each of the two smallest values
+                d = symnp.asarray([cellsv], 'float64').copy()
+                res = ctx.call('classify:natural_breaks', raster(d, attrs={'res': 1}, name='a'), 20000, 'nb', k)
+                out = _plain_list(vals(res))
+                ctx.check('natural-breaks-separates-isolated-values-from-clusters', out == [0, 1, 2, 2, 2, 3, 3, 4, 4, 4], info={'values': cellsv, 'classes': out})
             d = symnp.asarray([cellsv], 'float64').copy()
             res = ctx.call('classify:natural_breaks', raster(d, attrs={'res': 1}, name='a'), 20000, 'nb', k)
             out = _plain_list(vals(res))
@@ -289,5 +305,5 @@ def body_datadriven(ctx, job):
                 for c in range(k):
                     cls = ite(And(rank[i] >= bounds[c], rank[i] < bounds[c + 1]), c, cls)
                 alt.append(cls)
-            ctx.check('partition-minimises-within-class-ssd', Implies(And(allfin, alldistinct) if n >= 5 else allfin, ctx.le(got, ssd(alt), TOL64)),
+            ctx.check('partition-minimises-within-class-ssd', Implies(allfin if (n <= 3 or job.get('tie')) else And(allfin, alldistinct), ctx.le(got, ssd(alt), TOL64)),
                       info=lambda m, cuts=cuts: {'values': [ctx.ev(m, v) for v in dl], 'classes': [ctx.ev(m, o) for o in ol], 'better_cuts': list(cuts)})
